@@ -118,7 +118,7 @@ def native_replay(rep):
     import os, sys
     sys.path.insert(0, os.path.dirname(os.path.dirname(os.path.abspath(__file__))))
     from native import c01_bounded
-    n, bad, seen = c01_bounded.c02_search(2)
+    n, bad, seen = c01_bounded.c02_search(2, 3000)
     if bad is None:
         return {"confirmed": False, "observed": f"no unlisted disagreement with CPython among {n} generated expressions (depth 2)"}
     return {"confirmed": True, "observed": bad, "found_by": f"bounded differential check vs CPython ({n} expressions)"}
